@@ -287,23 +287,29 @@ def run_script_case(sim, case, pair, subject, peer, rec):
 # ---- hostile peer (puppet) ------------------------------------------------------------------------
 
 
-def gen_hostile_ops(rng, subject_side, n):
-    """A list of JSON-able puppet operations.  The puppet speaks as the subject's peer with the peer's real keys."""
+FRAME_KINDS = ["max_data", "max_stream_data", "max_streams", "ping", "stream", "reset_stream", "stop_sending",
+               "new_connection_id", "retire_connection_id", "path_challenge", "path_response", "new_token",
+               "handshake_done", "data_blocked", "stream_data_blocked", "streams_blocked", "datagram", "crypto",
+               "ack", "padding"]
+
+
+def gen_hostile_ops(rng, subject_side, n, first_kind=None):
+    """A list of JSON-able puppet operations.  The puppet speaks as the subject's peer with the peer's real keys.
+    first_kind: frame kind of the first operation (the driver cycles through FRAME_KINDS so that every kind occurs)."""
     peer_is_server = subject_side == "client"
     peer_bidi = 1 if peer_is_server else 0
     peer_uni = 3 if peer_is_server else 2
     subj_bidi = 0 if peer_is_server else 1
     big = [0, 1, 63, 64, 16383, 16384, (1 << 30) - 1, 1 << 30, (1 << 62) - 1]
     ops = []
-    for _ in range(n):
+    for i in range(n):
         r = rng.random()
         sid = rng.choice([peer_bidi, peer_bidi + 4, peer_uni, peer_uni + 4, subj_bidi, subj_bidi + 4, subj_bidi + 2,
                           peer_bidi + 4 * rng.randrange(0, 300), rng.choice(big)])
+        if i == 0 and first_kind:
+            r = 0.0
         if r < 0.45:
-            k = rng.choice(["max_data", "max_stream_data", "max_streams", "ping", "stream", "reset_stream", "stop_sending",
-                            "new_connection_id", "retire_connection_id", "path_challenge", "path_response", "new_token",
-                            "handshake_done", "data_blocked", "stream_data_blocked", "streams_blocked", "datagram", "crypto",
-                            "ack", "padding"])
+            k = first_kind if (i == 0 and first_kind) else rng.choice(FRAME_KINDS)
             f = {"f": k}
             if k in ("max_data", "max_streams", "data_blocked", "streams_blocked"):
                 f["v"] = rng.choice(big)
@@ -897,8 +903,12 @@ def gen_cases(rng, n_script, n_hostile, n_h3, n_h3_bad):
         if rng.random() < 0.3:
             opts["client_config"] = {"max_datagram_frame_size": 1200}
             opts["server_config"] = {"max_datagram_frame_size": 1200}
+        if rng.random() < 0.35:      # small flow-control windows: MAX_DATA / MAX_STREAM_DATA / *_BLOCKED traffic
+            fc = {"max_data": rng.choice([8192, 65536]), "max_stream_data": rng.choice([4096, 32768])}
+            opts["client_config"] = dict(opts.get("client_config", {}), **fc)
+            opts["server_config"] = dict(opts.get("server_config", {}), **fc)
         prof = rng.choice(["small", "small", "mixed", "closing", "closing"])
-        if opts.get("client_config"):
+        if "max_datagram_frame_size" in opts.get("client_config", {}):
             prof = dict(streams=3, writes=(1, 3), max_size=4096, p_reset=0.1, p_stop=0.1, extras=5, span=0.6,
                         close=rng.random() < 0.5, rebind=False, datagrams=True)
         c = {"kind": "script", "seed": seed, "subject": rng.choice(["client", "server"]), "net": net, "profile": prof, "opts": opts}
@@ -911,7 +921,8 @@ def gen_cases(rng, n_script, n_hostile, n_h3, n_h3_bad):
     for i in range(n_hostile):
         seed = rng.randrange(1 << 30)
         subject = rng.choice(["client", "server"])
-        c = {"kind": "hostile", "seed": seed, "subject": subject, "ops": gen_hostile_ops(rng, subject, rng.randint(2, 10)), "opts": {}}
+        c = {"kind": "hostile", "seed": seed, "subject": subject,
+             "ops": gen_hostile_ops(rng, subject, rng.randint(2, 10), FRAME_KINDS[i % len(FRAME_KINDS)]), "opts": {}}
         if rng.random() < 0.3:
             c["opts"]["client_config"] = {"max_datagram_frame_size": 1200}
             c["opts"]["server_config"] = {"max_datagram_frame_size": 1200}
